@@ -473,9 +473,28 @@ Theorem undo_block_perm l b top_h lB :
     (forall k, k = lb_hash b \/ In k (map tx_id (lb_txs b)) -> nget (dhist l') k = nget (dhist lB) k) ->
     exists l2, remove_block cfg genesis_addr l' b top' = Ok l2 /\ leqv_p l l2 /\ dhist l2 = dhist l'.
 Proof.
-  intros Hok HI HP HU Hb Htx Hsp Hnd Hbh Hinc Hnon.
-  apply (undo_block_gen cfg genesis_addr deq PInv (fun _ _ => True) PInv_ext PInv_kind PInv_tx PInv_pos Hok);
-    try assumption; [exact (conj HI (conj HP HU))|apply sides_true].
+  intros Hok HI HP HU Hb Htx Hsp Hnd Hbh Hinc Hnon H.
+  exact (proj2 (undo_block_gen cfg genesis_addr deq PInv (fun _ _ => True) PInv_ext PInv_kind PInv_tx PInv_pos Hok
+                  l b top_h lB (conj HI (conj HP HU)) Hb Htx Hsp Hnd Hbh Hinc Hnon
+                  (sides_true l (lb_txs b) (lb_height b) (lb_hash b) top_h) H)).
+Qed.
+
+(* counters after a block *)
+Lemma apply_block_frame l b top_h lB :
+  cfg_ok_emission cfg = true ->
+  SInv l -> FPos l -> FUniq l -> total_bal l + reward cfg (lb_height b) <= max_supply cfg ->
+  Forall (tx_ok cfg) (lb_txs b) -> Forall stake_pos (lb_txs b) ->
+  NoDup (map tx_id (lb_txs b)) -> ~ In (lb_hash b) (map tx_id (lb_txs b)) ->
+  (forall a, inc (acct_at l a) + nouts_sum (lb_txs b) + 4 < two64) ->
+  (forall a, nonce (acct_at l a) + N.of_nat (length (lb_txs b)) < two64) ->
+  apply_block cfg genesis_addr l b top_h = Ok lB ->
+  forall a, inc (acct_at lB a) <= inc (acct_at l a) + nouts_sum (lb_txs b) + 4 /\
+            nonce (acct_at lB a) <= nonce (acct_at l a) + N.of_nat (length (lb_txs b)).
+Proof.
+  intros Hok HI HP HU Hb Htx Hsp Hnd Hbh Hinc Hnon H.
+  exact (proj1 (undo_block_gen cfg genesis_addr deq PInv (fun _ _ => True) PInv_ext PInv_kind PInv_tx PInv_pos Hok
+                  l b top_h lB (conj HI (conj HP HU)) Hb Htx Hsp Hnd Hbh Hinc Hnon
+                  (sides_true l (lb_txs b) (lb_height b) (lb_hash b) top_h) H)).
 Qed.
 
 (* the form of C03_undo_block_full, with the delegate records compared up to the order of their funds *)
